@@ -642,6 +642,13 @@ def _schedule_rewrites(
 
         if isinstance(before, ast.AST):
             before = core.get_charnos(before, source)
+        elif before is None and after.lineno > len(source.splitlines()):
+            # Insertion below the last line of the source: append it, indented as requested.
+            before = core.Range(len(source), len(source))
+            indent = " " * getattr(after, "col_offset", 0)
+            after = textwrap.indent(core.unparse(after).rstrip(), indent) + "\n"
+            if source and not source.endswith("\n"):
+                after = "\n" + after
         elif before is None:
             before = core.get_charnos(after, source)
 
